@@ -8,7 +8,7 @@ from ..extract import units as _ex
 
 PROP = "C09"
 LEAN_MODULE = "NixModel.Props.C09"
-THEOREMS_ALL = [
+THEOREMS = [
     "Nix.C09.split_table",
     "Nix.C09.scaling_ratio",
     "Nix.C09.scaling_compose",
@@ -413,7 +413,6 @@ def matches_known(entry, failure):
 def replay_failure(ctx, fj):
     return check_case(fj["input"])
 
-THEOREMS = ["Nix.C09.split_table"]
 
 READY = True
 MANIFEST = {
